@@ -710,28 +710,7 @@ def replay(rep: dict) -> int:
     return 0
 
 
-class _C19Property(T1Property):
-    """T1Property whose Float-twin driver output is filtered: the generated definitions all take
-    the seven mass symbols, so Lean's unused-variable linter writes warnings to stdout between
-    the reply lines (core.render_float does not switch the linter off)."""
-
-    def validate(self, chk, defs, reals, rng, n):
-        import re
-
-        orig = common.lean_run
-
-        def filtered(rel_file, stdin_text, timeout=900):
-            out = orig(rel_file, stdin_text, timeout)
-            return "\n".join(ln for ln in out.split("\n") if re.fullmatch(r"[0-9 ]+|bad-op", ln.strip()))
-
-        common.lean_run = filtered
-        try:
-            super().validate(chk, defs, reals, rng, n)
-        finally:
-            common.lean_run = orig
-
-
-PROP = _C19Property(
+PROP = T1Property(
     prop_id="C19",
     sources=SOURCES,
     namespace="C19",
